@@ -488,6 +488,14 @@ Record cstate := mkCS { cs_rs : regstate; cs_R : registry; cs_D : list (N * dvie
 
 Definition rtag (t : N) (exc_only : bool) : N := (2 * t + (if exc_only then 1 else 0))%N.
 
+(* accept= of add_view: next to being a predicate argument (AcceptPredicate, part of the phash) the normalised offer is handed
+   to register_view / MultiView.add, which files the view under media_views[offer]; offers here carry no parameters *)
+Definition accept_of (o : vopts) : option offer :=
+  match assoc nm_accept (o_kw o) with
+  | Some [(false, VText t)] => Some (mkOffer t t false)
+  | _ => None
+  end.
+
 (* add_view.derive_view -> _derive_view -> _apply_view_derivers *)
 Definition derive1 (st : regstate) (cls : N) (exc_only : bool) (o : vopts) (b : body) : option dview :=
   match make pred_names (o_kw o) with
@@ -495,7 +503,7 @@ Definition derive1 (st : regstate) (cls : N) (exc_only : bool) (o : vopts) (b : 
   | Some m =>
       let perm := secured_permission st exc_only (o_perm o) in
       Some (mkD (mkReg (mkSlot cls (o_req o) (o_ctx o) (o_name o)) (rtag (o_tag o) exc_only)
-                       (m_preds m) (m_order m) (m_phash m) None
+                       (m_preds m) (m_order m) (m_phash m) (accept_of o)
                        (is_some perm && mem_text nm_call_permissive preserved_attrs))
                 perm (o_wrapper o) (o_deco o) b (o_csrf o))
   end.
@@ -732,8 +740,12 @@ Definition main_request (q : rq5) : request :=
   mkReq (q_method b) (q_params b) (q_headers b) (q_xhr b) (q_matchdict b) (q_auth b) (q_upath b) (q_lineage b)
         (q_has_name b) (q_regex b) (q_accept_q b) (q_truth b) (q_main_sro q) (q_res_sro q) (q_view_name b).
 Definition all_regs (D : list (N * dview)) : list reg := rev (map (fun kd => d_reg (snd kd)) D).   (* registration order *)
+Definition has_accept (v : reg) : bool := match r_accept v with Some _ => true | None => false end.
+(* with accept= registrations in the configuration the code tries an acceptable media view before the views without accept=
+   (C03's open finding C03-accept-first): the most-specific clause is then not applied (every registration is a winner) *)
 Definition winner_tags (D : list (N * dview)) (q : rq5) : list N :=
-  map (fun v => stag (r_tag v)) (spec_winners view_classifier (all_regs D) (main_request q)).
+  if existsb has_accept (all_regs D) then map (fun v => stag (r_tag v)) (all_regs D)
+  else map (fun v => stag (r_tag v)) (spec_winners view_classifier (all_regs D) (main_request q)).
 Fixpoint first_body (tr : trace) : option N :=          (* the callable (or its decorator) that ran first in the main phase *)
   match tr with
   | [] => None
@@ -825,11 +837,13 @@ Definition get_grant (v : val) : option (text * ctx) :=
   match v with VL [VT p; c] => olet c := get_ctx c in Some (p, c) | _ => None end.
 Definition get_rq5 (v : val) : option rq5 :=
   match v with
-  | VL [VT meth; xhr; truth; VT vn; c; msro; csro; wsro; rsro; esro; cok] =>
+  | VL [VT meth; xhr; truth; VT vn; c; msro; csro; wsro; rsro; esro; cok; aq] =>
       olet xhr := get_bool xhr in olet truth := get_Ns truth in olet c := get_ctx c in
       olet msro := get_Ns msro in olet csro := get_Ns csro in olet wsro := get_Ns wsro in
       olet rsro := get_Ns rsro in olet esro := get_list_of get_Ns esro in olet cok := get_bool cok in
-      Some (mkRq5 (mkReq meth [] [] xhr None false [] [] false [] [] truth [] [] vn) c msro csro wsro rsro esro cok)
+      olet aq := get_list_of (fun e => match e with VL [VT o; qv] => olet qv := get_N qv in Some (o, qv) | _ => None end) aq in
+      (* aq: (oracle, WebOb) quality*1000 of each offer of the configuration under the request's Accept header *)
+      Some (mkRq5 (mkReq meth [] [] xhr None false [] [] false [] aq truth [] [] vn) c msro csro wsro rsro esro cok)
   | _ => None
   end.
 
